@@ -23,33 +23,28 @@ package handler
 //@ spec dskey(ms: msgServer): iface = unbox(ms.keepers.Deployment, dkeeper.Keeper).skey
 //@ spec wired(ms: msgServer): bool = typeis(ms.keepers.Market, keeper.Keeper) && typeis(ms.keepers.Deployment, dkeeper.Keeper) && mskey(ms) != mktEscrowSKey() && dskey(ms) != mktEscrowSKey() && mskey(ms) != dskey(ms)
 
-// the deployment store under the marketplace hooks: nothing is removed, no group that left the open state re-opens
-//@ spec opaque depKeeps(h0: map[str]bool, v0: map[str]str, h1: map[str]bool, v1: map[str]str): bool =
-//@     (forall key: str :: h0[key] ==> h1[key])
-//@     && (forall g: dtypes.GroupID :: grpOf(v0, g).State != dtypes.GroupOpen ==> grpOf(v1, g).State != dtypes.GroupOpen)
-
 // ---- the escrow module as seen from this handler (A-HOOKS, see x/market/keeper) ----
 //@ extern handler.(EscrowKeeper).AccountCreate(recv, ctx, id, owner, deposit)
 //@   modifies ghost KVhas, ghost KVval, ghost G, ghost Bank, ghost Mod, ghost It_all
-//@   ensures forall sk: iface :: sk != mktEscrowSKey() ==> KVhas[sk] == old(KVhas)[sk] && KVval[sk] == old(KVval)[sk]
+//@   ensures forall sk: iface {KVval[sk]} :: sk != mktEscrowSKey() ==> KVhas[sk] == old(KVhas)[sk] && KVval[sk] == old(KVval)[sk]
 //@ extern handler.(EscrowKeeper).AccountClose(recv, ctx, id)
 //@   modifies ghost KVhas, ghost KVval, ghost G, ghost Bank, ghost Mod, ghost It_all, ghost EvN, ghost EvLog
 //@   ensures id.Scope == "bid" ==> EvN == old(EvN) && EvLog == old(EvLog)
-//@        && (forall sk: iface :: sk != mktEscrowSKey() ==> KVhas[sk] == old(KVhas)[sk] && KVval[sk] == old(KVval)[sk])
+//@        && (forall sk: iface {KVval[sk]} :: sk != mktEscrowSKey() ==> KVhas[sk] == old(KVhas)[sk] && KVval[sk] == old(KVval)[sk])
 // a payment is created only on an account that is still open after settlement: no hook has run
 //@ extern handler.(EscrowKeeper).PaymentCreate(recv, ctx, id, pid, owner, rate)
 //@   modifies ghost KVhas, ghost KVval, ghost G, ghost Bank, ghost Mod, ghost It_all, ghost EvN, ghost EvLog
 //@   ensures result == nil ==> EvN == old(EvN) && EvLog == old(EvLog)
-//@        && (forall sk: iface :: sk != mktEscrowSKey() ==> KVhas[sk] == old(KVhas)[sk] && KVval[sk] == old(KVval)[sk])
+//@        && (forall sk: iface {KVval[sk]} :: sk != mktEscrowSKey() ==> KVhas[sk] == old(KVhas)[sk] && KVval[sk] == old(KVval)[sk])
 //@ extern handler.(EscrowKeeper).PaymentClose(recv, ctx, id, pid)
 //@   modifies ghost KVhas, ghost KVval, ghost G, ghost Bank, ghost Mod, ghost It_all, ghost EvN, ghost EvLog, ghost PayCloseReq
 //@   ensures PayCloseReq == old(PayCloseReq)[id.XID := old(PayCloseReq)[id.XID][pid := true]]
 //@   ensures EvN >= old(EvN) && (forall j: int :: 0 <= j && j < old(EvN) ==> EvLog[j] == old(EvLog)[j])
-//@   ensures forall sk: iface :: sk != mktEscrowSKey() ==> keepsClosed(old(KVhas)[sk], old(KVval)[sk], KVhas[sk], KVval[sk]) && depKeeps(old(KVhas)[sk], old(KVval)[sk], KVhas[sk], KVval[sk])
+//@   ensures forall sk: iface {KVval[sk]} :: sk != mktEscrowSKey() ==> keepsClosed(old(KVhas)[sk], old(KVval)[sk], KVhas[sk], KVval[sk]) && depKeeps(old(KVhas)[sk], old(KVval)[sk], KVhas[sk], KVval[sk])
 //@ extern handler.(EscrowKeeper).PaymentWithdraw(recv, ctx, id, pid)
 //@   modifies ghost KVhas, ghost KVval, ghost G, ghost Bank, ghost Mod, ghost It_all, ghost EvN, ghost EvLog
 //@   ensures EvN >= old(EvN) && (forall j: int :: 0 <= j && j < old(EvN) ==> EvLog[j] == old(EvLog)[j])
-//@   ensures forall sk: iface :: sk != mktEscrowSKey() ==> keepsClosed(old(KVhas)[sk], old(KVval)[sk], KVhas[sk], KVval[sk]) && depKeeps(old(KVhas)[sk], old(KVval)[sk], KVhas[sk], KVval[sk])
+//@   ensures forall sk: iface {KVval[sk]} :: sk != mktEscrowSKey() ==> keepsClosed(old(KVhas)[sk], old(KVval)[sk], KVhas[sk], KVval[sk]) && depKeeps(old(KVhas)[sk], old(KVval)[sk], KVhas[sk], KVval[sk])
 
 // ---- CloseLease -----------------------------------------------------------------------------
 // Only an active lease with its active bid and matched order is closed; all three are closed together and the
